@@ -9,7 +9,9 @@
  *   id        canonical (alphabetical) id of the filter to call, see cb_table
  *   misc      byte 0: bit 0 the user directory exists, bit 1 xmitstat.ipv4conn, bit 2 esmtp, bit 3 TLS, bit 4 authenticated,
  *             bit 5 frommx is split into one struct ips per address; byte 1: xmitstat.helostatus; byte 2: xmitstat.check2822;
- *             byte 3: xmitstat.fromdomain (0, 1, 2 or 0xfe = DNS_ERROR_TEMP, 0xfd = DNS_ERROR_PERM); missing bytes are 0
+ *             byte 3: xmitstat.fromdomain (0, 1, 2 or 0xfe = DNS_ERROR_TEMP, 0xfd = DNS_ERROR_PERM); byte 4: what *t holds
+ *             on entry, i.e. what the previous filter of rcpt_cbs[] left there (0..4, or 0xea = -EINVAL after a
+ *             failed list load); missing bytes are 0
  *   mailfrom  envelope sender ("-" = bounce)
  *   helo      HELO argument (xmitstat.helostr; the reverse lookup is empty)
  *   ip        xmitstat.sremoteip, 16 bytes
@@ -42,8 +44,11 @@ struct recip *thisrecip;
 struct rcpt_list head;
 const char **globalconf;
 
-void log_write(int p, const char *s) { (void)p; (void)s; }
-void log_writen(int p, const char **s) { (void)p; (void)s; }
+/* the log text is not observed, but it is read the way the real log_writen() reads it, so that a bad pointer in a
+ * message array is noticed (ASan report or SIGSEGV -> CRASH) */
+static volatile size_t log_sink;
+void log_write(int p, const char *s) { (void)p; log_sink += strlen(s); }
+void log_writen(int p, const char **s) { (void)p; for (int i = 0; s[i]; i++) log_sink += strlen(s[i]); }
 int err_control(const char *a) { (void)a; return 0; }
 int err_control2(const char *a, const char *b) { (void)a; (void)b; return 0; }
 int check_host(const char *a) { (void)a; abort(); }
@@ -124,8 +129,9 @@ static void run_case(int nf, struct field *f)
 		out_str("BADCASE");
 		return;
 	}
-	unsigned char misc[4] = { 0, 0, 0, 0 };
-	memcpy(misc, f[2].p, f[2].len < 4 ? f[2].len : 4);
+	unsigned char misc[5] = { 0, 0, 0, 0, 0 };
+	memcpy(misc, f[2].p, f[2].len < 5 ? f[2].len : 5);
+	if (misc[4] > 4 && misc[4] != 0xea) { out_str("BADCASE"); return; }
 	const int userdir = misc[0] & 1;
 	if (memchr(f[3].p, 0, f[3].len) || memchr(f[4].p, 0, f[4].len) || memchr(f[6].p, 0, f[6].len) || f[4].len == 0) {
 		out_str("BADCASE");
@@ -225,7 +231,7 @@ static void run_case(int nf, struct field *f)
 	dns_script = f[7].p; dns_len = f[7].len; dns_pos = 0; dns_calls = 0;
 	n_sent = 0;
 	const char *logmsg = NULL;
-	enum config_domain t = 99;
+	enum config_domain t = misc[4] == 0xea ? -EINVAL : misc[4];
 	errno = 0;
 	enum filter_result r = cb_table[f[1].p[0]](&ds, &logmsg, &t);
 
